@@ -108,7 +108,9 @@ def reload {ρ : Type} (eq : ρ → ρ → Bool) : Nat → List (Ctl ρ) → Lis
 `Slot.Check` fetches the controller slice once; a `LoadRules` that runs while the request sleeps for one rule replaces
 the map entry, the request goes on over the slice it holds.  The controllers that the reload moved over to the new
 list are the same objects, so whatever the rest of the walk adds to their timestamps is seen in the new list; a
-controller that was not moved over is dropped together with what the walk adds to it. -/
+controller that was not moved over is dropped together with what the walk adds to it.
+`Sentinel.C10.chainReload_results`: the sleeping request answers as the plain walk over the controllers it started with;
+`Sentinel.C10.chainReload_ctls`: what is in force afterwards is what a reload after the request would have built. -/
 
 /-- the walk up to and including the first sleep: new timestamps (all positions; the ones not visited unchanged), the
     results of the visited controllers, and the clock after the sleep if it stopped at one -/
